@@ -5,6 +5,7 @@ from __future__ import annotations
 import math
 import os
 import random
+import sys
 
 import numpy as np
 
@@ -29,7 +30,7 @@ class InjectedKernelFault(Exception):
 POISON_EXC = (InjectedKernelFault, StopIteration, FloatingPointError, OSError, KeyError)
 # natural failures: inputs for which evaluating the event one at a time raises (the oracle
 # decides; if it returns, the value must simply match)
-NATURAL = ("E:nan", "E:inf", "E:neg", "alt:nan", "beta:nan", "alt:66", "E:zero", "E:huge", "E:tiny")
+NATURAL = ("E:nan", "E:inf", "E:neg", "alt:nan", "beta:nan", "alt:66", "E:zero", "E:huge", "E:tiny", "lat:over90", "lat:nan", "lat:under90", "lon:over180")
 
 
 class ConstCloud:
@@ -209,8 +210,11 @@ def _poisoned_event(ev, poison_kind):
         ev[3] = POISON_LAT
     else:
         field, what = poison_kind.split(":")
-        k = {"beta": 0, "alt": 1, "E": 2}[field]
-        ev[k] = {"nan": float("nan"), "inf": float("inf"), "neg": -abs(ev[k]) - 1.0, "66": 66.0, "zero": 0.0, "huge": 1e20, "tiny": 1e-30}[what]
+        k = {"beta": 0, "alt": 1, "E": 2, "lat": 3, "lon": 4}[field]
+        # out-of-domain coordinates: what a cloud model does with them (raise, clamp) is the model's
+        # business — the batch must do whatever one-at-a-time evaluation does
+        ev[k] = {"nan": float("nan"), "inf": float("inf"), "neg": -abs(ev[k]) - 1.0, "66": 66.0, "zero": 0.0, "huge": 1e20, "tiny": 1e-30,
+                 "over90": 90.000000001, "under90": -90.000000001, "over180": 180.000000001}[what]
     return tuple(ev)
 
 
@@ -617,6 +621,73 @@ def scn_real(ctx):
     ctx.log("real verdict=ok")
 
 
+def scn_overlap(ctx):
+    """Two (or three) batch calls on ONE evaluator overlap in time: each caller in a real thread
+    that runs only while it holds the baton, pre-empted at repository-line granularity by the
+    seeded scheduler (a notebook with a thread pool, a service answering requests).  At most one
+    of the batches contains a failing event.  Each call on its own account: a healthy batch
+    returns the one-at-a-time values in order, the batch with the failing event raises."""
+    import dask
+    import dask.diagnostics.progress as prog
+    from nuspacesim.simulation.eas_optical.cphotang import CphotAng
+
+    from ..schedsim import run_interleaved
+
+    ch, tier = ctx.ch, ctx.tier
+    det_alt = DET_ALTS[ch.draw(3, "det_alt")]
+    kind = CLOUD_KINDS[ch.draw(len(CLOUD_KINDS), "cloud")]
+    pool = _pool(tier)
+    obj = CphotAng(det_alt)
+    ncall = 2 + (ch.draw(4, "callers") == 3)
+    faulty = ch.draw(ncall + 1, "faulty_caller") - 1  # -1: none
+    batches, argsl, clouds, ppos = [], [], [], None
+    for k in range(ncall):
+        n = 1 + ch.draw(10, "N")
+        idx = [ch.draw(len(pool), "event") for _ in range(n)]
+        cf = _cloud(kind)
+        pk = pp = None
+        if k == faulty:
+            pp = ppos = ch.draw(n, "poison_pos")
+            pk = "cloud:" + POISON_EXC[0].__name__
+            cf = PoisonCloud(cf, POISON_EXC[ch.draw(len(POISON_EXC), "poison_exc")])
+        batches.append(idx)
+        argsl.append(_arrays(tier, idx, pp, pk))
+        clouds.append(cf)
+    policy = ("targeted", "fine", "targeted", "mixed")[ch.draw(4, "quanta")]
+    ctx.log(f"overlap callers={ncall} sizes={[len(b) for b in batches]} faulty={faulty}@{ppos} det_alt={det_alt:g} cloud={kind} quanta={policy}")
+    ctx.describe.update(callers=ncall, sizes=[len(b) for b in batches], faulty_caller=faulty, poison_pos=ppos, det_alt=det_alt, cloud=kind, quanta=policy)
+
+    def caller(k):
+        def go():
+            return obj(*argsl[k], clouds[k])
+        return go
+
+    saved = (prog.ProgressBar._start, prog.ProgressBar._finish, sys.stdout)
+    prog.ProgressBar._start = lambda bar, dsk: None  # no timer thread: nothing runs outside the baton
+    prog.ProgressBar._finish = lambda bar, dsk, state, errored: None
+    sys.stdout = _NullOut()
+    try:
+        with dask.config.set(scheduler="synchronous"):
+            res, switches = run_interleaved(ctx, env.repo_src(), [caller(k) for k in range(ncall)], policy)
+    finally:
+        prog.ProgressBar._start, prog.ProgressBar._finish, sys.stdout = saved
+    ctx.probes["overlapping_batch_calls_context_switches"] += switches
+    ctx.nontrivial = switches > 0
+    if faulty >= 0:
+        ctx.faults["poison-cloud-in-overlapping-batch"] += 1
+    ctx.log(f"switches={switches} outcomes={['exc:' + type(e).__name__ if e else 'ok' for _, e in res]}")
+    for k, (r, e) in enumerate(res):
+        if isinstance(e, HarnessError):
+            raise e
+        if k == faulty:
+            if e is None:
+                raise Violation("c10.fault_not_surfaced", f"[overlap] caller {k}: the event at position {ppos} of {len(batches[k])} fails but the batch call returned a value", sig="CphotAng.__call__")
+            continue
+        if e is not None:
+            raise Violation("c10.raised_without_fault", f"[overlap] caller {k} of {ncall} sharing one evaluator raised {type(e).__name__}: {str(e)[:160]} although every event of ITS batch evaluates one at a time", sig="CphotAng.__call__:overlap")
+        _compare("c10.overlap", r, det_alt, kind, tier, batches[k])
+
+
 def scn_strict(ctx):
     """The process runs with DeprecationWarning promoted to an error (python -W error, pytest -W
     error): whatever one-at-a-time evaluation does under that filter — raise or return — the
@@ -752,12 +823,12 @@ class _NullOut:
         return False
 
 
-FAMILIES = {"faultfree": scn_faultfree, "faults": scn_faults, "real": scn_real, "huge": scn_huge, "strict": scn_strict}
+FAMILIES = {"faultfree": scn_faultfree, "faults": scn_faults, "real": scn_real, "huge": scn_huge, "strict": scn_strict, "overlap": scn_overlap}
 OBSERVATIONAL = ("real",)
 
 PLAN = {
-    "quick": [("huge", 2, 1), ("faultfree", 900, 6), ("faults", 500, 6), ("real", 21, 1), ("strict", 60, 4)],
-    "thorough": [("faultfree", 40000, 20), ("faults", 20000, 20), ("real", 300, 2), ("huge", 16, 1), ("strict", 3000, 10)],
+    "quick": [("huge", 2, 1), ("faultfree", 900, 6), ("faults", 500, 6), ("real", 21, 1), ("strict", 60, 4), ("overlap", 120, 6)],
+    "thorough": [("faultfree", 40000, 20), ("faults", 20000, 20), ("real", 300, 2), ("huge", 16, 1), ("strict", 3000, 10), ("overlap", 6000, 20)],
 }
 BUDGET = {"quick": 300, "thorough": 2700}
 
